@@ -106,9 +106,15 @@ class ProxyCommand(ClosingContextManager):
 
                 r, w, x = select([self.process.stdout], [], [], select_timeout)
                 if r and r[0] == self.process.stdout:
-                    buffer += os.read(
+                    data = os.read(
                         self.process.stdout.fileno(), size - len(buffer)
                     )
+                    if len(data) == 0:
+                        # end of file: the process closed its stdout (it has
+                        # most likely exited); report what we have, and EOF
+                        # (an empty result) once nothing is left
+                        break
+                    buffer += data
             return buffer
         except socket.timeout:
             if buffer:
